@@ -23,10 +23,10 @@ Say(tid, v, k) == PrintT(<<"VERDICT", tid, v \o "@" \o ToString(k)>>)
 \* the verdict on the real result.  A named known deviation excuses a violated clause only when the
 \* real result is exactly what the model of the deviating mechanism predicts: anything else inside a
 \* deviating region is a violation of its own.
-CallVerdict(sigs, oc) ==
+\* (model = ImplResolve of the case, computed once per call by TNext)
+CallVerdict(sigs, oc, model) ==
     LET c == [sigs |-> sigs, call |-> oc.call]
         real == Result(oc.real.st, oc.real.ty, oc.real.anyk, oc.real.code)
-        model == ImplResolve(c)
         clause == RefClause(c, real)
     IN IF \E i \in 1..Len(sigs) : RefBinds(sigs[i], oc.call) # oc.pybind[i] THEN "oracle:binder"
        ELSE IF ~InProperty(c) THEN (IF real # model.res THEN "drift:result" ELSE "ok")
@@ -38,19 +38,19 @@ CallVerdict(sigs, oc) ==
 \* the classification of every CallReturn of the real second pass (OverloadStep events: error / clean /
 \* any / union / union_any per overload tried) against the machine's steps -- judged whatever the
 \* verdict on the result is, so that a mis-filed step shows even where the final type is the same
-StepsVerdict(sigs, oc) ==
-    LET c == [sigs |-> sigs, call |-> oc.call]
-    IN IF \E i \in 1..Len(sigs) : RefBinds(sigs[i], oc.call) # oc.pybind[i] THEN "ok"      \* reported above
-       ELSE IF oc.real.st \notin {"ok", "err"} THEN "ok"                                  \* raised: reported above
-       ELSE IF oc.steps # ImplResolve(c).steps THEN "drift:steps" ELSE "ok"
+StepsVerdict(sigs, oc, model) ==
+    IF \E i \in 1..Len(sigs) : RefBinds(sigs[i], oc.call) # oc.pybind[i] THEN "ok"      \* reported above
+    ELSE IF oc.real.st \notin {"ok", "err"} THEN "ok"                                     \* raised: reported above
+    ELSE IF oc.steps # model.steps THEN "drift:steps" ELSE "ok"
 
 TInit == l = 1 /\ Init
 TNext ==
     /\ l <= Len(Obs)
     /\ LET o == Obs[l]
        IN \A k \in 1..Len(o.calls) :
-            LET v == CallVerdict(o.sigs, o.calls[k])
-                w == StepsVerdict(o.sigs, o.calls[k])
+            LET model == ImplResolve([sigs |-> o.sigs, call |-> o.calls[k].call])
+                v == CallVerdict(o.sigs, o.calls[k], model)
+                w == StepsVerdict(o.sigs, o.calls[k], model)
             IN /\ IF v = "ok" THEN TRUE ELSE Say(o.tid, v, k)
                /\ IF w = "ok" THEN TRUE ELSE Say(o.tid, w, k)
     /\ l' = l + 1
